@@ -4,7 +4,7 @@
    input (segmentation invariance); the modelled record / ClientHello layout is proved exact and
    stable. *)
 From Coq Require Import List NArith Bool Lia ZifyBool ZifyNat ZifyN.
-From TT Require Import Lib.BytesL Model.ClientRandom Generated.TlsFacts Proofs.ClientRandomProofs.
+From TT Require Import Lib.BytesL Model.ClientRandom Generated.TlsFacts Spec.TlsRecords Proofs.ClientRandomProofs.
 Import ListNotations.
 Open Scope N_scope.
 
@@ -49,14 +49,26 @@ Proof.
 Qed.
 Print Assumptions client_random_is_segmentation_invariant.
 
-(* Exactness of the modelled layout: a value is reported only for a handshake record that starts
-   with a ClientHello, and it is bytes 11..43 of that record: the random field; and the modelled
-   extraction is stable, so the theorem above applies to it *)
+(* Exactness, whatever the record boundaries: a value is reported exactly when the handshake byte stream carried by the
+   leading handshake records (Spec/TlsRecords.v: an independent reading of the record layer, fragments of any sizes) starts
+   with a ClientHello and has its first 38 bytes, and the value is the random field of that message - however many records
+   the ClientHello is spread over, however large it is, and whatever follows the random; and the modelled extraction is
+   stable, so the theorem above applies to it *)
 Theorem reported_value_is_the_random_field :
-  forall data r, extract_c data = XFound r ->
-    nthN data 0 = 22 /\ nthN data 5 = 1 /\ 43 <= lenN data /\ r = takeN 32 (dropN 11 data).
-Proof. exact extract_c_found. Qed.
+  forall data r, extract_c data = XFound r <-> client_hello_random (handshake_bytes data) = Some r.
+Proof. intros data r. split; [apply extract_c_found|apply extract_c_complete]. Qed.
 Print Assumptions reported_value_is_the_random_field.
+
+(* a ClientHello whose first 43 bytes arrive in three records (3 + 30 + the rest): the same random as in one record *)
+Example ex_three_records :
+  let rnd := map N.of_nat (seq 100 32) in
+  let hello := [1; 0; 0; 40; 3; 3] ++ rnd ++ [0; 0; 2; 19; 1; 1; 0]%N in
+  let rec (f : list N) := [22; 3; 1; 0; lenN f] ++ f in
+  extract_c (rec hello) = XFound rnd
+  /\ extract_c (rec (takeN 3 hello) ++ rec (takeN 30 (dropN 3 hello)) ++ rec (dropN 33 hello)) = XFound rnd
+  /\ extract_c (rec (takeN 3 hello) ++ rec (takeN 30 (dropN 3 hello))) = XNeedMore
+  /\ extract_c (rec (takeN 3 hello) ++ [23; 3; 3; 0; 1; 0]%N) = XNotFound.
+Proof. vm_compute. repeat split; reflexivity. Qed.
 
 Theorem modelled_extraction_is_stable :
   forall b t e, extract_c b = e -> e <> XNeedMore -> extract_c (b ++ t) = e.
